@@ -747,10 +747,9 @@ def _cost():
                      {"C05": t}, "COST", meta=dict(op=w, kind=kind, n=n, tables="any", budget="Floyd: sum of sift-down budgets"),
                      covers_required=False, cost=(n + 1) * (30 if heavy else 8))
         # append of two queues of equal length: sifting the moved elements up one by one
-        # (k log n) leaves the Floyd budget at 16 + 16
-        for n, t in ((2, QUICK), (4, THOROUGH), (8, THOROUGH), (16, THOROUGH)):
-            if dq and n == 16:
-                continue
+        # (k log n) would leave the Floyd budget only at 16 + 16
+        # (measured: 16 + 16 runs out of memory after 36 min, so it is not an instance)
+        for n, t in ((2, QUICK), (4, THOROUGH), (8, THOROUGH)):
             inst(f"cost_{kind}_bulk_append_eq_n{n}", f"cost::cost_bulk::<{ty}, {n}>(7, Tables::{'Any' if n <= 4 else 'Identity'})", kind, 2 * n,
                  {"C05": t}, "COST", meta=dict(op="append (equal lengths)", kind=kind, n=n, m=n, tables="any" if n <= 4 else "identity"),
                  covers_required=False, cost=60 * n * (4 if dq else 1), mem=3 if n < 16 else 12)
@@ -829,6 +828,8 @@ def _crash():
                      covers_required=False, cost=(n + 2) * (60 if dq else 10))
         # extend, rebuild strategy: receiver of 8, identity tables, hint far above
         for tag, keys in (("ab", [8, 9]), ("xa", [3, 8])):
+            if dq and tag == "xa":
+                continue    # measured: runs out of memory (40 GB) after 5 min of symbolic execution
             t = QUICK if (tag == "ab" and not dq) else THOROUGH
             inst(f"crash_{kind}_extend_n8_m2_{tag}_far_rebuild",
                  f"crash::crash_extend::<{ty}, 8, 2, {seq_of(keys)}>(Tables::Identity, bulk::H_FAR)", kind, 10,
@@ -918,7 +919,7 @@ def _hasher():
                  f"bulk::append::<{ty}, {n}, {m}, {seq_of(keys)}>(Pre::Inv, Tables::Any, step::ALL)",
                  kind, n + m, {"C18": t}, "STEP",
                  meta=dict(op="append", kind=kind, n=n, m=m, other_keys=keys, pre="inv", group="all", hasher="per-instance key"),
-                 covers_required=False, cost=(n + m) * (15 if dq else 4))
+                 covers_required=False, cost=(n + m) * (15 if dq else 4), mem=8)
         for n in (1, 2, 3):
             t = tq(n, 1 if dq else 2, 3)
             inst(f"eq_{kind}_n{n}_m{n}", f"misc::eq2::<{ty}, {n}, {n}>()", kind, n, {"C18": t, "C14": t}, "EQ",
